@@ -25,7 +25,15 @@ pub enum HOp {
     /// observe(2^k)
     Observe(u8),
     /// local(): observe(2^k) for each k; then flush() (explicit) or drop (implicit flush)
-    LocalBatch { ks: Vec<u8>, explicit: bool },
+    /// with `clone_mid` the local histogram is cloned after the first observation (a clone starts
+    /// empty), the remaining observations go to the clone, and both are flushed / dropped in that
+    /// order: two batches
+    LocalBatch {
+        ks: Vec<u8>,
+        explicit: bool,
+        #[serde(default)]
+        clone_mid: bool,
+    },
     Collect(Via),
     Count,
     Sum,
@@ -116,7 +124,7 @@ fn gen_plan(seed: u64, long: bool) -> HistPlan {
                 let ks: Vec<u8> = (0..m).map(|i| next_k + i).collect();
                 next_k += m;
                 nobs_total += m as usize;
-                ops.push(HOp::LocalBatch { ks, explicit: r.chance(60) });
+                ops.push(HOp::LocalBatch { ks, explicit: r.chance(60), clone_mid: r.chance(30) });
             } else {
                 ops.push(HOp::Observe(next_k));
                 next_k += 1;
@@ -227,16 +235,27 @@ fn exec_op(o: &Objects, op: &HOp) -> HRes {
             o.h.observe(val_of(o.neg, *k));
             HRes::None
         }
-        HOp::LocalBatch { ks, explicit } => {
+        HOp::LocalBatch { ks, explicit, clone_mid } => {
             let l = o.h.local();
-            for k in ks {
-                l.observe(val_of(o.neg, *k));
+            let mut l2 = None;
+            for (i, k) in ks.iter().enumerate() {
+                if *clone_mid && i == 1 {
+                    l2 = Some(l.clone());
+                }
+                match &l2 {
+                    Some(c) => c.observe(val_of(o.neg, *k)),
+                    None => l.observe(val_of(o.neg, *k)),
+                }
             }
             if *explicit {
                 l.flush();
+                if let Some(c) = &l2 {
+                    c.flush();
+                }
                 l.flush();
             }
             drop(l);
+            drop(l2);
             HRes::None
         }
         HOp::Collect(via) => HRes::Snap(snapshot(o, via)),
@@ -308,6 +327,10 @@ fn execute(prop: &'static str, plan: &HistPlan, mode: Mode) -> RunOut {
         };
         match (op, r) {
             (HOp::Observe(k), _) => obs.push(Obs { id: *id, inv, ret, bits: 1u64 << k, thread: t, pos: i }),
+            (HOp::LocalBatch { ks, clone_mid, .. }, _) if *clone_mid && ks.len() >= 2 => {
+                obs.push(Obs { id: *id, inv, ret, bits: 1u64 << ks[0], thread: t, pos: i });
+                obs.push(Obs { id: *id, inv, ret, bits: ks[1..].iter().fold(0, |a, k| a | 1u64 << k), thread: t, pos: i });
+            }
             (HOp::LocalBatch { ks, .. }, _) => obs.push(Obs { id: *id, inv, ret, bits: ks.iter().fold(0, |a, k| a | 1u64 << k), thread: t, pos: i }),
             (HOp::Collect(_), HRes::Snap(s)) => snaps.push((*id, inv, ret, s.clone())),
             (_, x) => getters.push((*id, inv, ret, x.clone())),
@@ -463,7 +486,9 @@ fn execute(prop: &'static str, plan: &HistPlan, mode: Mode) -> RunOut {
                             if let Some(ob) = obs.iter().find(|o| o.id == *x) {
                                 let c_inv = iv[cop].0;
                                 let cop_key = if *cop == FINAL_OP { u32::MAX } else { *cop };
-                                let in_s = sets.iter().find(|s| s.0 == cop_key).map(|s| s.3 & ob.bits != 0).unwrap_or(true);
+                                // (a batch split by a clone has two entries under one op id)
+                                let op_bits = obs.iter().filter(|o| o.id == *x).fold(0u64, |a, o| a | o.bits);
+                                let in_s = sets.iter().find(|s| s.0 == cop_key).map(|s| s.3 & op_bits != 0).unwrap_or(true);
                                 if ob.inv > c_inv && !in_s {
                                     out.violations.push(Violation::new(&cls("waits"), cls("waits"), format!("collect op {} waited for observation op {}, which started after the collect and is not part of its snapshot", cop, ob.id)));
                                 }
